@@ -226,6 +226,7 @@ package packet
 //@ contract decodePathAttr
 //@   props C16 C19
 //@   nonnil
+//@   split
 //@   modifies buf
 //@   old len0 int = buf.Len()
 //@   ensures err == nil ==> pa != nil && verif_fresh(pa)
